@@ -15,9 +15,11 @@ LEVEL = "exploration"
 
 def sanitize_case(c):
     """Keep a generated encoder case away from configurations known to hang the encoder (C11/C15 territory, not
-    C08's): hierarchical_levels=5 with logical_processors<=2.  Recon output is not needed here."""
+    C08's): logical_processors <= 2 with hierarchical_levels=5, or with hierarchical_levels=3 and a short intra
+    period (64x64, intra_period_length=7 hangs deterministically).  The encoder's thread count is irrelevant to the
+    stream's validity, so every case runs with at least 4.  Recon output is not needed here."""
     c = dict(c)
-    if int(c.get("cfg.hierarchical_levels", 4)) >= 5 and int(c.get("cfg.logical_processors", 1)) <= 2:
+    if int(c.get("cfg.logical_processors", 1)) <= 2:
         c["cfg.logical_processors"] = 4
     c["cfg.recon_enabled"] = 0
     return c
